@@ -226,7 +226,7 @@ func contract_AppendVarint(b []byte, v uint64) (r []byte) {
 	modifiesTail(b)
 	ensures(freshSlice(r) || sameArray(r, b)) // extended in place, or reallocated
 	ensures(len(r) == len(b)+specVlen(v))
-	ensures(forall(0, len(b), func(i int) bool { return r[i] == old(b[i]) }))
+	ensures(forallIn(r, 0, len(b), func(i int, e byte) bool { return e == old(b[i]) }))
 	ensures(specVarintAt(r, len(b), v))
 	return
 }
@@ -236,7 +236,7 @@ func contract_AppendFixed32(b []byte, v uint32) (r []byte) {
 	modifiesTail(b)
 	ensures(freshSlice(r) || sameArray(r, b)) // extended in place, or reallocated
 	ensures(len(r) == len(b)+4)
-	ensures(forall(0, len(b), func(i int) bool { return r[i] == old(b[i]) }))
+	ensures(forallIn(r, 0, len(b), func(i int, e byte) bool { return e == old(b[i]) }))
 	ensures(forall(0, 4, func(k int) bool { return r[len(b)+k] == byte(v>>(8*uint(k))) }))
 	return
 }
@@ -246,7 +246,7 @@ func contract_AppendFixed64(b []byte, v uint64) (r []byte) {
 	modifiesTail(b)
 	ensures(freshSlice(r) || sameArray(r, b)) // extended in place, or reallocated
 	ensures(len(r) == len(b)+8)
-	ensures(forall(0, len(b), func(i int) bool { return r[i] == old(b[i]) }))
+	ensures(forallIn(r, 0, len(b), func(i int, e byte) bool { return e == old(b[i]) }))
 	ensures(forall(0, 8, func(k int) bool { return r[len(b)+k] == byte(v>>(8*uint(k))) }))
 	return
 }
@@ -256,7 +256,7 @@ func contract_AppendTag(b []byte, num Number, typ Type) (r []byte) {
 	modifiesTail(b)
 	ensures(freshSlice(r) || sameArray(r, b)) // extended in place, or reallocated
 	ensures(len(r) == len(b)+specVlen(uint64(num)<<3|uint64(typ&7)))
-	ensures(forall(0, len(b), func(i int) bool { return r[i] == old(b[i]) }))
+	ensures(forallIn(r, 0, len(b), func(i int, e byte) bool { return e == old(b[i]) }))
 	ensures(specVarintAt(r, len(b), uint64(num)<<3|uint64(typ&7)))
 	return
 }
@@ -268,9 +268,9 @@ func contract_AppendBytes(b []byte, v []byte) (r []byte) {
 	modifiesTail(b)
 	ensures(freshSlice(r) || sameArray(r, b)) // extended in place, or reallocated
 	ensures(len(r) == len(b)+specVlen(uint64(len(v)))+len(v))
-	ensures(forall(0, len(b), func(i int) bool { return r[i] == old(b[i]) }))
+	ensures(forallIn(r, 0, len(b), func(i int, e byte) bool { return e == old(b[i]) }))
 	ensures(specVarintAt(r, len(b), uint64(len(v))))
-	ensures(forall(0, len(v), func(k int) bool { return r[len(b)+specVlen(uint64(len(v)))+k] == old(v[k]) }))
+	ensures(forallIn(r, len(b)+specVlen(uint64(len(v))), len(b)+specVlen(uint64(len(v)))+len(v), func(i int, e byte) bool { return e == old(v[i-len(b)-specVlen(uint64(len(v)))]) }))
 	return
 }
 
@@ -280,9 +280,9 @@ func contract_AppendString(b []byte, v string) (r []byte) {
 	modifiesTail(b)
 	ensures(freshSlice(r) || sameArray(r, b)) // extended in place, or reallocated
 	ensures(len(r) == len(b)+specVlen(uint64(len(v)))+len(v))
-	ensures(forall(0, len(b), func(i int) bool { return r[i] == old(b[i]) }))
+	ensures(forallIn(r, 0, len(b), func(i int, e byte) bool { return e == old(b[i]) }))
 	ensures(specVarintAt(r, len(b), uint64(len(v))))
-	ensures(forall(0, len(v), func(k int) bool { return r[len(b)+specVlen(uint64(len(v)))+k] == v[k] }))
+	ensures(forallIn(r, len(b)+specVlen(uint64(len(v))), len(b)+specVlen(uint64(len(v)))+len(v), func(i int, e byte) bool { return e == v[i-len(b)-specVlen(uint64(len(v)))] }))
 	return
 }
 
@@ -293,8 +293,8 @@ func contract_AppendGroup(b []byte, num Number, v []byte) (r []byte) {
 	modifiesTail(b)
 	ensures(freshSlice(r) || sameArray(r, b)) // extended in place, or reallocated
 	ensures(len(r) == len(b)+len(v)+specVlen(uint64(num)<<3|4))
-	ensures(forall(0, len(b), func(i int) bool { return r[i] == old(b[i]) }))
-	ensures(forall(0, len(v), func(k int) bool { return r[len(b)+k] == old(v[k]) }))
+	ensures(forallIn(r, 0, len(b), func(i int, e byte) bool { return e == old(b[i]) }))
+	ensures(forallIn(r, len(b), len(b)+len(v), func(i int, e byte) bool { return e == old(v[i-len(b)]) }))
 	ensures(specVarintAt(r, len(b)+len(v), uint64(num)<<3|4))
 	return
 }
@@ -317,15 +317,15 @@ func contract_ConsumeVarint(b []byte) (v uint64, n int) {
 //@ props C01 C02
 func contract_ConsumeFixed32(b []byte) (v uint32, n int) {
 	ensures(imp(len(b) < 4, n == errCodeTruncated && v == 0))
-	ensures(imp(len(b) >= 4, n == 4 && v == uint32(b[0])|uint32(b[1])<<8|uint32(b[2])<<16|uint32(b[3])<<24))
+	ensures(imp(len(b) >= 4, n == 4 && v == uint32(b[0])+uint32(b[1])<<8+uint32(b[2])<<16+uint32(b[3])<<24))
 	return
 }
 
 //@ props C01 C02
 func contract_ConsumeFixed64(b []byte) (v uint64, n int) {
 	ensures(imp(len(b) < 8, n == errCodeTruncated && v == 0))
-	ensures(imp(len(b) >= 8, n == 8 && v == uint64(b[0])|uint64(b[1])<<8|uint64(b[2])<<16|uint64(b[3])<<24|
-		uint64(b[4])<<32|uint64(b[5])<<40|uint64(b[6])<<48|uint64(b[7])<<56))
+	ensures(imp(len(b) >= 8, n == 8 && v == uint64(b[0])+uint64(b[1])<<8+uint64(b[2])<<16+uint64(b[3])<<24+
+		uint64(b[4])<<32+uint64(b[5])<<40+uint64(b[6])<<48+uint64(b[7])<<56))
 	return
 }
 
@@ -345,8 +345,8 @@ func contract_ConsumeBytes(b []byte) (v []byte, n int) {
 	ensures(n == specBytesLen(b))
 	ensures(imp(n < 0, v == nil))
 	// the payload is the sub-slice between the length prefix and n
-	ensures(imp(n > 0, sameBase(v, b) && len(v) == n-specVarintLen(b) && uint64(len(v)) == specVarintVal(b, specVarintLen(b))))
-	ensures(imp(n > 0, forall(0, len(v), func(k int) bool { return v[k] == b[specVarintLen(b)+k] })))
+	ensures(imp(n > 0, sameBase(v, b) && offsetIn(v, b) == specVarintLen(b) && len(v) == n-specVarintLen(b) && uint64(len(v)) == specVarintVal(b, specVarintLen(b))))
+	ensures(imp(n > 0, forallIn(v, 0, len(v), func(k int, e byte) bool { return e == b[specVarintLen(b)+k] })))
 	ensures(n == errCodeTruncated || n == errCodeOverflow || (1 <= n && n <= len(b)))
 	return
 }
@@ -357,7 +357,7 @@ func contract_ConsumeString(b []byte) (v string, n int) {
 	ensures(n == specBytesLen(b))
 	ensures(imp(n < 0, v == ""))
 	ensures(imp(n > 0, len(v) == n-specVarintLen(b) && uint64(len(v)) == specVarintVal(b, specVarintLen(b))))
-	ensures(imp(n > 0, forall(0, len(v), func(k int) bool { return v[k] == b[specVarintLen(b)+k] })))
+	ensures(imp(n > 0, forallStr(v, 0, len(v), func(k int, e byte) bool { return e == b[specVarintLen(b)+k] })))
 	return
 }
 
